@@ -238,6 +238,7 @@ def run(ctx):
             # depths; no aldy logic differs) - if that run satisfies the spec, the backend's result depends on the row order
             # of the model, i.e. it returned a non-optimal point as OPTIMAL in one of them (see C05's known finding)
             fp["same_model_other_row_order_is_accepted"] = _other_order_accepted(ctx, k, m)
+            fp["cbc_objective_worse_than_scip_on_same_model"] = _backend_flag(m)
         ctx.violation(clause, fp, m, f"case {k}: M={m['M']} gap={m['gap']} cov={m['region_cov']} reported={m['result']}")
     # ---- routes
     rr = route_rows(rng, quick)
@@ -257,6 +258,27 @@ def run(ctx):
             continue
         row = [r for r in rr if r["id"] == k][0]
         ctx.violation(clause, {"stage": "cn-route", "clause": clause, "route": row["route"]}, row, f"route case {k}: {row}")
+
+
+def _backend_flag(m):
+    """Re-run the recorded call with every CBC solve exported; True iff SCIP beats an objective CBC called optimal."""
+    from aldy.cn import solve_cn_model
+
+    from .. import backend
+
+    try:
+        gname, genome = m["gene"].split("/")
+        g = genes.load(gname, genome)
+        fs_raw = {n: tuple(v) for n, v in (m["fusion_support"] or {}).items()} or None
+        fs = {n: ((a / b) if b else 0.0) for n, (a, b) in fs_raw.items()} if fs_raw else None
+        rc = {r: tuple(m["region_cov"][r]) for r in m["region_cov"]}
+        recs = []
+        with backend.watch(recs), aldyenv.quiet_stderr():
+            solve_cn_model(g, _profile(gap=m["gap"], **m.get("params", {})), dict(g.cn_configs), m["M"], rc, "any", fusion_support=fs)
+        with aldyenv.quiet_stderr():
+            return bool(backend.worse_than_scip(recs))
+    except Exception:  # noqa: BLE001
+        return False
 
 
 def _other_order_accepted(ctx, cid, m):
